@@ -117,6 +117,19 @@ def gen(tier, seed):
         scripts.append(rescheck.with_opts(workcheck.random_work_script(rnd, "C14w%d.%d" % (seed, i), "C13", m), "memrec=2"))
         scripts.append(rescheck.with_opts(sigcheck.gen_c10(rnd, "C14s%d.%d" % (seed, i), m), "memrec=2"))
         scripts.append(rescheck.with_opts(sigcheck.gen_c11(rnd, "C14p%d.%d" % (seed, i), m), "memrec=2"))
+    # the small two-thread scenarios of the signal / wait / event / pool checks, under random schedules
+    import mtcheck as _mt
+    small = []
+    for prop, scen in sorted(sigcheck.SMALL.items()):
+        small += [(n, "epoll " + o, b, []) for n, (o, b) in sorted(scen.items())]
+    small += [(n, "epoll", b, []) for n, b in sorted(_mt.ev_scenarios().items())]
+    small += [(n, "poll", b, []) for n, b in sorted(_mt.ev_scenarios().items())]
+    small += [(n, "epoll", b, []) for n, b in sorted(_mt.raw_scenarios().items()) if n not in ("burst", "burst-owner")]
+    small += [(n, "epoll", b, []) for n, b in sorted(workcheck.small_scenarios("C13").items())]
+    for name, method, body, faults in small:
+        for j in range(4 if tier == "quick" else 40):
+            scripts.append(rescheck.with_opts(_mt.mk("C14x%d.%s.%s.%d" % (seed, name, method.split()[0], j), body, method, det=0,
+                                                     seed=rnd.randint(1, 1 << 30), faults=faults, sticky=rnd.choice([0, 1, 3])), "memrec=2"))
     # independent loops initialised, run and torn down concurrently
     for i in range(k // 2):
         L = ["B C14i%d.%d method=%s seed=%d maxwait=60 maxcb=200 memrec=2 sticky=%d" % (seed, i, rnd.choice(coregen.METHODS), rnd.randint(1, 1 << 30), rnd.choice([0, 1, 3]))]
